@@ -84,7 +84,9 @@ def run(chk):
             # the first rounds are not left to chance: every aggregator sees matrices with an all-zero
             # row (and, where it takes one, a non-uniform preference / weight vector)
             forced = "zero_row" if rnd < 3 else ("clustered" if rnd < (9 if name == "Krum" else 5) and name in ("Krum", "TrimmedMean", "Mean") else None)
-            c = R.gen_case(rng, name, mmax=(4 if q else 5) if forced != "clustered" else 6, nmax=5, boundary=False, cat=forced or rng.choice(
+            if forced is None and name == "TrimmedMean" and rnd < 10:
+                forced = "few_values"
+            c = R.gen_case(rng, name, mmax=(4 if q else 5) if forced not in ("clustered", "few_values") else (7 if forced == "few_values" else 6), nmax=5, boundary=False, cat=forced or rng.choice(
                 ["generic", "conflict", "zero_row", "rank_def", "bad_scale", "stationary", "generic",
                  "antiparallel", "dup_rows", "dominated", "dominated", "zero_row"]))
             if rnd < 3 and "pref" in c["params"] and len(c["J"]) >= 2:
@@ -92,6 +94,8 @@ def run(chk):
                 while c["params"]["pref"] is None or len(set(c["params"]["pref"])) < 2:
                     c["params"]["pref"] = A.gen_pref(rng, len(c["J"]), positive=True)
         J, p = c["J"], c["params"]
+        if name == "TrimmedMean" and c["cat"].startswith("few_values") and len(J) >= 3:
+            p["b"] = (len(J) - 1) // 2          # maximal trimming: the kept entries are the (tied) medians
         if len(J) < 2:
             continue
         if name == "Krum" and not krum_gap_ok(J, p["f"], p["k"]):
